@@ -30,7 +30,7 @@ func runC08(r *R) {
 	w := r.W
 	r.Explain = "C08 is overwhelmingly a model-equivalence property (every operation sequence behaves like an in-memory filesystem); that is not decidable by static analysis and is NOT claimed. Decided here are four structural clauses only: (R1) a handle reads/writes through its inode only when it was opened readable/writable, else the mode errors; " +
 		"(R2) openFile derives (readable, writable) from the access mode exactly as O_RDWR→(T,T), O_RDONLY→(T,F), O_WRONLY→(F,T), rejects other modes, returns ErrFileExists for O_EXCL on an existing name and truncates only writable non-directories; " +
-		"(R3) the file-content state (segments, size, memsize, repacked) is written only by filenode's own methods and the flush machinery; (R4) a freshly built (zero-repacked) pointer is only given to seek after fn.repacked was incremented, so that seek recomputes the segment position."
+		"(R3) the file-content state (segments, size, memsize, repacked) is written only by filenode's own methods and the flush machinery; (R4) a freshly built (zero-repacked) pointer is only given to seek after fn.repacked was incremented, so that seek recomputes the segment position; (R5/R6) the background-flush completion re-validates the segment before replacing it and buffers being flushed are copied on write (same rules as C13-R2/R3), which keeps size == sum of segment lengths."
 	r.NotDec = []string{"bytes read / sizes / directory semantics / error exactness for arbitrary operation sequences (model equivalence)", "block-boundary behaviour"}
 	r.Assume = []string{}
 
@@ -243,6 +243,11 @@ func runC08(r *R) {
 			r.Check(ok, "C08-R4", fn, "seek(filenodePtr{off: …})", c.Pos(), "fn.repacked was incremented first, so the zero-valued pointer cannot be mistaken for an up-to-date one", "a zero-valued filenodePtr reaches seek while fn.repacked may still be 0 (file loaded from a manifest and never written): seek trusts segmentIdx=0/segmentOff=0 and the caller then drops every segment")
 		}
 	}
+
+	// ---- R5 (shared with C13-R2/R3: the copy-on-write / background-flush mechanism is one of C08's anchors)
+	r.Rule("C08-R5", "background flush completion swaps a memory segment for a stored one only after re-validating lock, PutB result, index, identity, flushing token and length (size == sum of segment lengths is preserved)", 2)
+	r.Rule("C08-R6", "copy-on-write: a buffer being flushed is never modified in place (memSegment.WriteAt/Truncate)", 4)
+	flushSwapRules(r, "C08-R5", "C08-R6")
 }
 
 func maskVP(v ssa.Value) bool {
